@@ -120,6 +120,14 @@ func Load(dir, tier string) (*Prog, error) {
 			// (outside /repo and /verif, removed right after loading) and loaded from there.
 			scratch, pkgs2, err2 := loadNormalised(dir, mode, overlay)
 			if err2 != nil {
+				// second attempt with every closure literal left in place (normalize.go, closureEdits)
+				overlay2, lg2 := buildOverlay(pkgs, PinnedFuncs(), true)
+				if scratch3, pkgs3, err3 := loadNormalised(dir, mode, overlay2); err3 == nil {
+					normLog = append(lg2, "normalised without removing dead closures: "+err2.Error())
+					scratch, pkgs2, err2 = scratch3, pkgs3, nil
+				}
+			}
+			if err2 != nil {
 				normLog = append(normLog, "normalisation abandoned: "+err2.Error())
 			} else {
 				pkgs = pkgs2
